@@ -100,7 +100,6 @@ func doMatchMatches(expression *grammar.MatchExpression, value reflect.Value) (b
 		if err != nil {
 			return false, fmt.Errorf("Failed to compile regular expression %q: %v", expression.Value.Raw, err)
 		}
-		expression.Value.Converted = re
 	}
 
 	return re.Match(value.Convert(byteSliceTyp).Interface().([]byte)), nil
